@@ -899,8 +899,17 @@ fn partition(
     // The priorities at the beginning of the argument list have precedence over
     // the priorities given at the end of the argument list, therefore we're applying
     // them in reversed order.
+    //
+    // `top` and `bottom` order the files completely, so no priority given after one of them
+    // can break a tie. They must also be applied to the files in their original order:
+    // they refer to the order of the input file, not to the result of an earlier sort.
+    let significant_count = config
+        .priority
+        .iter()
+        .position(|p| matches!(p, Priority::Top | Priority::Bottom))
+        .map_or(config.priority.len(), |i| i + 1);
     let mut sort_errors = Vec::new();
-    for priority in config.priority.iter().rev() {
+    for priority in config.priority[..significant_count].iter().rev() {
         sort_errors.extend(sort_by_priority(&mut file_sub_groups, priority));
     }
 
